@@ -109,7 +109,11 @@ def check_case(ctx, text, doc, cls):
                 return [(tuple(m.parts), canon(unwrap(m.obj)), str(m.pointer())) async for m in await jsonpath.finditer_async(text, wrap(doc, plan))]
             am = impl.call(lambda: asyncio.run(amatches()))
             ctx.count("async_lazy_container_routes")
-            want = [(tuple(m.parts), canon(m.obj), str(m.pointer())) for m in ms]
+            wo = impl.call(lambda: [(tuple(m.parts), canon(m.obj), str(m.pointer())) for m in ms])
+            if not wo.ok:
+                ctx.violation("pointer()-raised:%s" % type(wo.exc).__name__, case, {"text": text, "error": wo.desc()})
+                return
+            want = wo.value
             if not am.ok or am.value != want:
                 bad = next((x for x, y in zip(am.value, want) if x != y), None) if am.ok else None
                 ctx.violation("async-match-pairs-a-location-with-another-node's-value", case, {"text": text, "latencies": "shrinking" if shrinking else "random", "first_wrong_match": repr(bad)[:300] if am.ok else am.desc(), "sync": repr(want[:4])[:300]})
@@ -192,7 +196,7 @@ def check_case(ctx, text, doc, cls):
         ctx.violation("original-document-modified", case, {"text": text})
         return
     if ms and (len(ctx.samples) < 3 or ctx.rng.random() < 0.003):
-        ctx.sample({"text": text, "matches": len(ms), "pointers": [str(m.pointer()) for m in ms[:3]]})
+        ctx.sample({"text": text, "matches": len(ms), "pointers": impl.call(lambda: [str(m.pointer()) for m in ms[:3]]).value})
 
 
 def flags_history(ctx):
